@@ -227,6 +227,14 @@ func c03Lines(r *engine.Run) {
 			if count%7 == 0 {
 				c03Decoders(r, g, want, "wkt")
 			}
+			// validity depends on the XY point set only: Z/M payloads (all different) must not change the verdict
+			for _, ct := range []geom.CoordinatesType{geom.DimXYZ, geom.DimXYZM} {
+				z := withZM(g, ct)
+				r.Transitions.Add(1)
+				if ok, msg, pnc := libValid(z); pnc != nil || ok != want {
+					r.Violation("C03/zm.verdictDiffersFromXY:linestring", "wkt", wktCase{z.AsText(), "Z/M variant"}, fmt.Sprint(msg, pnc))
+				}
+			}
 		})
 	}
 	r.Bound(fmt.Sprintf("LineStrings: all %d vertex sequences of length 1..%d on 3×3 (repeats allowed) × reversal × 4 affine maps", count, maxLen))
@@ -261,6 +269,13 @@ func c03Rings(r *engine.Run) {
 				want, why := c03Compare(r, g, "wkt", "ring")
 				if idx%101 == 0 {
 					c03Decoders(r, g, want, "wkt")
+				}
+				if idx%7 == 0 || n <= 3 {
+					z := withZM(g, geom.DimXYZM)
+					r.Transitions.Add(1)
+					if ok, msg, pnc := libValid(z); pnc != nil || ok != want {
+						r.Violation("C03/zm.verdictDiffersFromXY:ring", "wkt", wktCase{z.AsText(), "ZM variant"}, fmt.Sprint(msg, pnc))
+					}
 				}
 				if want || strings.Contains(why, "not simple") {
 					// verdict must not depend on start vertex / direction / affine map.
@@ -588,6 +603,23 @@ func c03Multi(r *engine.Run) {
 			r.Transitions.Add(1)
 			if ok, _, _ := libValid(v); ok {
 				r.Violation("C03/representation.multipolygon.accepts-invalid", "wkt", wktCase{v.AsText(), "variant of " + g.AsText()}, why)
+			}
+		}
+		// an EMPTY member at any position does not change the verdict; neither does a Z payload
+		if k%5 == 0 || !want {
+			pi, pj := id.Polygon(polys[i]), id.Polygon(polys[j])
+			for vi, ms := range [][]geom.Polygon{{{}, pi, pj}, {pi, {}, pj}, {pi, pj, {}}, {pj, {}, pi}, {{}, pj, {}, pi}} {
+				v := geom.NewMultiPolygon(ms).AsGeometry()
+				r.Transitions.Add(1)
+				if ok, msg, pnc := libValid(v); pnc != nil || ok != want {
+					r.Violation("C03/multipolygon.emptyMemberChangesVerdict", "wkt", wktCase{v.AsText(), fmt.Sprint("empty member variant ", vi)}, fmt.Sprint(msg, pnc))
+				}
+			}
+			if k%15 == 0 {
+				z := withZM(g, geom.DimXYZ)
+				if ok, msg, pnc := libValid(z); pnc != nil || ok != want {
+					r.Violation("C03/zm.verdictDiffersFromXY:multipolygon", "wkt", wktCase{z.AsText(), "Z variant"}, fmt.Sprint(msg, pnc))
+				}
 			}
 		}
 		if k%37 == 0 {
